@@ -336,6 +336,75 @@ pub fn render_sdl(doc: &Doc) -> String {
     s
 }
 
+
+// ------------------------------------------------------------------------------------------------
+// SDL text → abstract document (for corpus cases taken from the repository's test schemas)
+// ------------------------------------------------------------------------------------------------
+
+fn pty_of(t: &async_graphql_parser::types::Type) -> PTy {
+    match &t.base {
+        async_graphql_parser::types::BaseType::Named(n) => PTy::Named(n.to_string(), !t.nullable),
+        async_graphql_parser::types::BaseType::List(i) => PTy::List(Box::new(pty_of(i)), !t.nullable),
+    }
+}
+
+pub fn doc_of_sdl(text: &str) -> Option<Doc> {
+    use async_graphql_parser::types::{TypeKind, TypeSystemDefinition};
+    let parsed = async_graphql_parser::parse_schema(text).ok()?;
+    let mut doc = vec![];
+    for d in parsed.definitions {
+        match d {
+            TypeSystemDefinition::Schema(s) => doc.push(Def::Schema(s.node.query.as_ref()?.node.to_string())),
+            TypeSystemDefinition::Directive(d) => doc.push(Def::Directive(d.node.name.node.to_string())),
+            TypeSystemDefinition::Type(t) => {
+                let name = t.node.name.node.to_string();
+                let (is_interface, implements, fields) = match &t.node.kind {
+                    TypeKind::Scalar => {
+                        doc.push(Def::Scalar(name));
+                        continue;
+                    }
+                    TypeKind::Object(o) => (false, &o.implements, &o.fields),
+                    TypeKind::Interface(i) => (true, &i.implements, &i.fields),
+                    TypeKind::Enum(_) => {
+                        doc.push(Def::Unsupported("enum".into(), name));
+                        continue;
+                    }
+                    TypeKind::Union(_) => {
+                        doc.push(Def::Unsupported("union".into(), name));
+                        continue;
+                    }
+                    TypeKind::InputObject(_) => {
+                        doc.push(Def::Unsupported("input".into(), name));
+                        continue;
+                    }
+                };
+                let fields = fields
+                    .iter()
+                    .map(|f| Field {
+                        name: f.node.name.node.to_string(),
+                        ty: pty_of(&f.node.ty.node),
+                        args: f
+                            .node
+                            .arguments
+                            .iter()
+                            .map(|a| Arg {
+                                name: a.node.name.node.to_string(),
+                                ty: pty_of(&a.node.ty.node),
+                                default: a.node.default_value.as_ref().map(|v| match FieldValue::try_from(v.node.clone()) {
+                                    Ok(v) => DefaultV::Val(v),
+                                    Err(_) => DefaultV::Bad,
+                                }),
+                            })
+                            .collect(),
+                    })
+                    .collect();
+                doc.push(Def::Type(TypeDef { name, is_interface, implements: implements.iter().map(|i| i.node.to_string()).collect(), fields }));
+            }
+        }
+    }
+    Some(doc)
+}
+
 // ------------------------------------------------------------------------------------------------
 // Implementation side of C19
 // ------------------------------------------------------------------------------------------------
@@ -947,7 +1016,7 @@ fn deep(base: &str, levels: usize) -> PTy {
     t
 }
 
-pub const MUTATIONS: [&str; 44] = [
+pub const MUTATIONS: [&str; 45] = [
     "missing-interface",
     "implements-object",
     "non-transitive",
@@ -974,6 +1043,7 @@ pub const MUTATIONS: [&str; 44] = [
     "self-cycle",
     "two-cycle",
     "three-cycle",
+    "cycle-dependent",
     "ambiguous-origin",
     "diamond-origin",
     "dup-schema-block",
@@ -1347,6 +1417,24 @@ pub fn mutate(doc: &mut Doc, m: &str, rng: &mut Rng) -> bool {
             }
             true
         }
+        "cycle-dependent" => {
+            // a type that is not on a cycle but implements a member of one stays unresolved too; with a
+            // name sorting before the cycle it is the one the error reports
+            let on_cycle = rng.chance(1, 2);
+            doc.push(Def::Type(TypeDef {
+                name: "Loop".into(),
+                is_interface: true,
+                implements: vec!["Loop".into()],
+                fields: vec![Field { name: "cyc".into(), ty: PTy::named("Int", false), args: vec![] }],
+            }));
+            doc.push(Def::Type(TypeDef {
+                name: if on_cycle { "Zz_dep".into() } else { "AaDep".into() },
+                is_interface: rng.chance(1, 2),
+                implements: vec!["Loop".into()],
+                fields: vec![Field { name: "cyc".into(), ty: PTy::named("Int", false), args: vec![] }],
+            }));
+            true
+        }
         "ambiguous-origin" | "diamond-origin" => {
             // two interfaces with the same field; diamond: both inherit it from a common base (fine)
             let diamond = m == "diamond-origin";
@@ -1498,7 +1586,7 @@ impl Prop for C19 {
         "C19"
     }
     fn rule(&self) -> &'static str {
-        "requests are (schema-new <doc>): an abstract schema document rendered to SDL text for the real Schema::parse and interpreted directly by the Lean model. Valid stream: generated valid schemas (2-6 vertex types besides the root, interfaces with transitively closed implements incl. chains, properties of every built-in scalar and list shape up to depth 3, edges incl. self-edges and list edges, parameterised edges with/without defaults, inherited fields narrowed in nullability / edge target / widened parameter types, the directive prelude, custom directives, custom scalars, schema block first/middle/last, shuffled definitions). Malformed stream: 44 mutations (each documented rule violated, each panic trigger, duplicates of types/fields/implements/parameters) applied singly to several bases and in all ordered pairs. A case is distinct by its request text; it is non-trivial when the document has an interface with fields and an implementer (the inheritance rules are exercised) or carries a mutation. Oracle on the implementation: no panic; accept iff an independent checker of the documented rules (harness, not derived from the Rust code) finds no violated rule (silent on unsupported definitions and on duplicate parameter names, which the documented rules do not mention)."
+        "requests are (schema-new <doc>): an abstract schema document rendered to SDL text for the real Schema::parse and interpreted directly by the Lean model. Valid stream: generated valid schemas (2-6 vertex types besides the root, interfaces with transitively closed implements incl. chains, properties of every built-in scalar and list shape up to depth 3, edges incl. self-edges and list edges, parameterised edges with/without defaults, inherited fields narrowed in nullability / edge target / widened parameter types, the directive prelude, custom directives, custom scalars, schema block first/middle/last, shuffled definitions). Malformed stream: 45 mutations (each documented rule violated, each panic trigger, duplicates of types/fields/implements/parameters) applied singly to several bases and in all ordered pairs. A case is distinct by its request text; it is non-trivial when the document has an interface with fields and an implementer (the inheritance rules are exercised) or carries a mutation. Oracle on the implementation: no panic; accept iff an independent checker of the documented rules (harness, not derived from the Rust code) finds no violated rule (silent on unsupported definitions and on duplicate parameter names, which the documented rules do not mention)."
     }
     fn generate(&self, tier: Tier, rng: &mut Rng) -> Vec<Case> {
         let mut out = vec![];
@@ -1598,6 +1686,414 @@ impl Prop for C19 {
     }
 }
 
+
+// ------------------------------------------------------------------------------------------------
+// C20 — schema introspection
+// ------------------------------------------------------------------------------------------------
+
+use trustfall_core::schema::SchemaAdapter;
+
+fn meta_schema() -> &'static Schema {
+    static META: std::sync::OnceLock<Schema> = std::sync::OnceLock::new();
+    META.get_or_init(|| Schema::parse(SchemaAdapter::schema_text()).expect("meta schema"))
+}
+
+const QUERY_IDS: [&str; 12] = [
+    "types",
+    "implements",
+    "implementer",
+    "properties",
+    "edges",
+    "params",
+    "entrypoints",
+    "entry-params",
+    "schema-types",
+    "schema-entrypoints",
+    "typenames",
+    "optional-implements",
+];
+
+/// query text and arguments of a query id (`None`: unknown id)
+fn query_of(q: &Sexp) -> Option<(String, BTreeMap<Arc<str>, FieldValue>)> {
+    let mut args: BTreeMap<Arc<str>, FieldValue> = BTreeMap::new();
+    let by_prop = |filter: &str| {
+        format!("{{ VertexType {{ name @filter(op: \"{filter}\", value: [\"$n\"]) @output property {{ property: name @output type @output }} }} }}")
+    };
+    let text = match q {
+        Sexp::Atom(a) => match a.as_str() {
+            "types" => "{ VertexType { name @output is_interface @output docs @output } }".to_string(),
+            "implements" => "{ VertexType { name @output implements { implements: name @output } } }".to_string(),
+            "implementer" => "{ VertexType { name @output implementer { implementer: name @output } } }".to_string(),
+            "properties" => "{ VertexType { name @output property { property: name @output type @output docs @output } } }".to_string(),
+            "edges" => "{ VertexType { name @output edge { edge: name @output to_many @output at_least_one @output target { target: name @output } } } }".to_string(),
+            "params" => "{ VertexType { name @output edge { edge: name @output parameter { param: name @output type @output default @output } } } }".to_string(),
+            "entrypoints" => "{ Entrypoint { edge: name @output to_many @output at_least_one @output target { target: name @output } } }".to_string(),
+            "entry-params" => "{ Entrypoint { edge: name @output parameter { param: name @output type @output default @output } } }".to_string(),
+            "schema-types" => "{ Schema { vertex_type { name @output is_interface @output } } }".to_string(),
+            "schema-entrypoints" => "{ Schema { entrypoint { edge: name @output } } }".to_string(),
+            "typenames" => "{ VertexType { __typename @output name @output property { ptype: __typename @output property: name @output } } }".to_string(),
+            "optional-implements" => "{ VertexType { name @output implements @optional { implements: name @output is_interface @output } } }".to_string(),
+            _ => return None,
+        },
+        other => {
+            let (h, a) = other.as_call()?;
+            match h {
+                "by-name" => {
+                    args.insert("n".into(), FieldValue::String(a.first()?.as_atom()?.into()));
+                    by_prop("=")
+                }
+                "one-of" => {
+                    let names: Vec<FieldValue> = a.iter().map(|x| x.as_atom().map(|s| FieldValue::String(s.into()))).collect::<Option<_>>()?;
+                    args.insert("n".into(), FieldValue::List(names.into()));
+                    by_prop("one_of")
+                }
+                _ => return None,
+            }
+        }
+    };
+    Some((text, args))
+}
+
+fn cell_of(output: &str, v: &FieldValue) -> String {
+    match v {
+        FieldValue::Null => "n".to_string(),
+        FieldValue::Boolean(b) => format!("(b {})", if *b { 1 } else { 0 }),
+        FieldValue::String(s) if output == "default" => {
+            // the JSON serialisation of the default value: parse it back (text formatting is serde_json's)
+            match serde_json::from_str::<serde_json::Value>(s) {
+                Ok(j) => format!("(json {})", render_value(&json_to_value(&j))),
+                Err(_) => format!("(bad-json {})", tfharness::sexp::hex(s.as_bytes())),
+            }
+        }
+        FieldValue::String(s) => format!("(s {})", tfharness::sexp::hex(s.as_bytes())),
+        other => format!("(unexpected {})", render_value(other)),
+    }
+}
+
+fn json_to_value(j: &serde_json::Value) -> FieldValue {
+    match j {
+        serde_json::Value::Null => FieldValue::Null,
+        serde_json::Value::Bool(b) => FieldValue::Boolean(*b),
+        serde_json::Value::Number(n) => {
+            if let Some(i) = n.as_i64() {
+                FieldValue::Int64(i)
+            } else if let Some(u) = n.as_u64() {
+                FieldValue::Uint64(u)
+            } else {
+                FieldValue::Float64(n.as_f64().unwrap())
+            }
+        }
+        serde_json::Value::String(s) => FieldValue::String(s.as_str().into()),
+        serde_json::Value::Array(a) => FieldValue::List(a.iter().map(json_to_value).collect::<Vec<_>>().into()),
+        serde_json::Value::Object(_) => FieldValue::String("<object>".into()),
+    }
+}
+
+fn render_rows(mut rows: Vec<String>) -> String {
+    rows.sort();
+    let mut s = String::from("(rows");
+    for r in rows {
+        s.push(' ');
+        s.push_str(&r);
+    }
+    s.push(')');
+    s
+}
+
+fn row_text(cells: &[(String, String)]) -> String {
+    let mut v: Vec<String> = cells.iter().map(|(k, c)| format!("({k} {c})")).collect();
+    v.sort();
+    format!("(row {})", v.join(" "))
+}
+
+/// Run one fixed introspection query over the schema built from `doc` on the real engine.
+fn introspect_answer(q: &Sexp, doc: &Doc) -> Option<String> {
+    let (text, args) = query_of(q)?;
+    let schema = match Schema::parse(render_sdl(doc)) {
+        Ok(s) => s,
+        Err(_) => return Some("invalid".into()),
+    };
+    let indexed = trustfall_core::frontend::parse(meta_schema(), &text).unwrap_or_else(|e| panic!("introspection query rejected: {e}"));
+    let adapter = Arc::new(SchemaAdapter::new(&schema));
+    let rows: Vec<String> = trustfall_core::interpreter::execution::interpret_ir(adapter, indexed, Arc::new(args))
+        .unwrap_or_else(|e| panic!("introspection arguments rejected: {e}"))
+        .map(|row| {
+            let cells: Vec<(String, String)> = row.iter().map(|(k, v)| (k.to_string(), cell_of(k, v))).collect();
+            row_text(&cells)
+        })
+        .collect();
+    Some(render_rows(rows))
+}
+
+// ---- expected rows by a direct walk of the document, following the *documentation* of
+// ---- adapter/schema.graphql (not the adapter's code)
+
+fn s_cell(s: &str) -> String {
+    format!("(s {})", tfharness::sexp::hex(s.as_bytes()))
+}
+fn b_cell(b: bool) -> String {
+    format!("(b {})", if b { 1 } else { 0 })
+}
+fn default_cell(a: &Arg) -> String {
+    match &a.default {
+        Some(DefaultV::Val(v)) => format!("(json {})", render_value(v)),
+        Some(DefaultV::Bad) => "(unconvertible)".into(),
+        // "Nullable parameters have a default value of `null` … Non-nullable parameters without a
+        // default value will have a null value in this field."
+        None => if a.ty.non_null() { "n".into() } else { "(json n)".into() },
+    }
+}
+
+fn expected_rows(q: &Sexp, doc: &Doc) -> Option<Vec<String>> {
+    let root = root_name(doc)?;
+    let ts = types(doc);
+    let listed: Vec<&TypeDef> = ts.iter().copied().filter(|t| t.name != root).collect();
+    let root_t = type_of(doc, &root)?;
+    let is_vertex = |n: &str| ts.iter().any(|t| t.name == n);
+    let kv = |k: &str, c: String| (k.to_string(), c);
+    let mut rows = vec![];
+    let prop_rows = |t: &TypeDef, with_docs: bool, rows: &mut Vec<String>| {
+        for f in t.fields.iter().filter(|f| !is_vertex(f.ty.base())) {
+            let mut cells = vec![kv("name", s_cell(&t.name)), kv("property", s_cell(&f.name)), kv("type", s_cell(&f.ty.display()))];
+            if with_docs {
+                cells.push(kv("docs", "n".into()));
+            }
+            rows.push(row_text(&cells));
+        }
+    };
+    let edge_cells = |f: &Field| {
+        vec![
+            kv("edge", s_cell(&f.name)),
+            kv("to_many", b_cell(matches!(f.ty, PTy::List(..)))),
+            kv("at_least_one", b_cell(f.ty.non_null())),
+            kv("target", s_cell(f.ty.base())),
+        ]
+    };
+    let param_rows = |prefix: Vec<(String, String)>, f: &Field, rows: &mut Vec<String>| {
+        for a in &f.args {
+            let mut cells = prefix.clone();
+            cells.extend([kv("edge", s_cell(&f.name)), kv("param", s_cell(&a.name)), kv("type", s_cell(&a.ty.display())), kv("default", default_cell(a))]);
+            rows.push(row_text(&cells));
+        }
+    };
+    match q {
+        Sexp::Atom(a) => match a.as_str() {
+            "types" => {
+                for t in &listed {
+                    rows.push(row_text(&[kv("name", s_cell(&t.name)), kv("is_interface", b_cell(t.is_interface)), kv("docs", "n".into())]));
+                }
+            }
+            "schema-types" => {
+                for t in &listed {
+                    rows.push(row_text(&[kv("name", s_cell(&t.name)), kv("is_interface", b_cell(t.is_interface))]));
+                }
+            }
+            "implements" => {
+                for t in &listed {
+                    for i in &t.implements {
+                        rows.push(row_text(&[kv("name", s_cell(&t.name)), kv("implements", s_cell(i))]));
+                    }
+                }
+            }
+            "optional-implements" => {
+                for t in &listed {
+                    if t.implements.is_empty() {
+                        rows.push(row_text(&[kv("name", s_cell(&t.name)), kv("implements", "n".into()), kv("is_interface", "n".into())]));
+                    }
+                    for i in &t.implements {
+                        let it = type_of(doc, i)?;
+                        rows.push(row_text(&[kv("name", s_cell(&t.name)), kv("implements", s_cell(i)), kv("is_interface", b_cell(it.is_interface))]));
+                    }
+                }
+            }
+            "implementer" => {
+                // "Subtypes of this vertex type. If this is not an interface type, this edge is
+                // guaranteed to be empty."
+                for t in listed.iter().filter(|t| t.is_interface) {
+                    for x in listed.iter().filter(|x| ancestors(doc, &x.name).contains(&t.name)) {
+                        rows.push(row_text(&[kv("name", s_cell(&t.name)), kv("implementer", s_cell(&x.name))]));
+                    }
+                }
+            }
+            "properties" => {
+                for t in &listed {
+                    prop_rows(t, true, &mut rows);
+                }
+            }
+            "typenames" => {
+                for t in &listed {
+                    for f in t.fields.iter().filter(|f| !is_vertex(f.ty.base())) {
+                        rows.push(row_text(&[
+                            kv("__typename", s_cell("VertexType")),
+                            kv("name", s_cell(&t.name)),
+                            kv("ptype", s_cell("Property")),
+                            kv("property", s_cell(&f.name)),
+                        ]));
+                    }
+                }
+            }
+            "edges" => {
+                for t in &listed {
+                    for f in t.fields.iter().filter(|f| is_vertex(f.ty.base())) {
+                        let mut cells = vec![kv("name", s_cell(&t.name))];
+                        cells.extend(edge_cells(f));
+                        rows.push(row_text(&cells));
+                    }
+                }
+            }
+            "params" => {
+                for t in &listed {
+                    for f in t.fields.iter().filter(|f| is_vertex(f.ty.base())) {
+                        param_rows(vec![kv("name", s_cell(&t.name))], f, &mut rows);
+                    }
+                }
+            }
+            "entrypoints" => {
+                for f in &root_t.fields {
+                    rows.push(row_text(&edge_cells(f)));
+                }
+            }
+            "entry-params" => {
+                for f in &root_t.fields {
+                    param_rows(vec![], f, &mut rows);
+                }
+            }
+            "schema-entrypoints" => {
+                for f in &root_t.fields {
+                    rows.push(row_text(&[kv("edge", s_cell(&f.name))]));
+                }
+            }
+            _ => return None,
+        },
+        other => {
+            let (h, a) = other.as_call()?;
+            let wanted: Vec<&str> = a.iter().filter_map(|x| x.as_atom()).collect();
+            if h != "by-name" && h != "one-of" {
+                return None;
+            }
+            for t in listed.iter().filter(|t| wanted.contains(&t.name.as_str())) {
+                prop_rows(t, false, &mut rows);
+            }
+        }
+    }
+    rows.sort();
+    Some(rows)
+}
+
+pub struct C20;
+
+impl Prop for C20 {
+    fn id(&self) -> &'static str {
+        "C20"
+    }
+    fn rule(&self) -> &'static str {
+        "for every generated valid schema (same generator as C19's valid stream: 2-6 vertex types, interface chains, narrowed inherited fields, list/nullable property and edge types, parameterised edges with and without defaults, custom scalars sharing a vertex type's name) the 12 fixed introspection queries (vertex types with is_interface and docs; implements; implementer; properties with displayed type; edges with to_many / at_least_one / target; edge parameters with type and default; entrypoints and their parameters; the same through the Schema vertex; __typename; an @optional implements) plus name-filtered variants ((by-name N) with a listed type, the root type and an undefined name; (one-of …) mixing the three) are run on the real engine through SchemaAdapter and answered by the Lean model; one (adapter-invariants doc) request per schema runs check_adapter_invariants(meta_schema, SchemaAdapter::new(schema)). Rows are compared as sorted multisets. A case is distinct by its request text and non-trivial when the expected row set is non-empty. Oracle on the implementation: rows equal a direct walk of the generated document that follows the documentation of adapter/schema.graphql; no panic."
+    }
+    fn generate(&self, tier: Tier, rng: &mut Rng) -> Vec<Case> {
+        let n = if tier == Tier::Quick { 40 } else { 400 };
+        let mut out = vec![];
+        for k in 0..n {
+            let doc = gen_valid(rng, &GenOpts { rich: k % 2 == 0 });
+            let d = doc_to_sexp(&doc);
+            let root = root_name(&doc).unwrap();
+            let names: Vec<String> = types(&doc).iter().map(|t| t.name.clone()).filter(|n| *n != root).collect();
+            let mut qs: Vec<Sexp> = QUERY_IDS.iter().map(|q| atom(q)).collect();
+            let pick = names[rng.below(names.len())].clone();
+            qs.push(Sexp::call("by-name", vec![atom(&pick)]));
+            qs.push(Sexp::call("by-name", vec![atom(&root)]));
+            qs.push(Sexp::call("by-name", vec![atom("Nope")]));
+            let mut some: Vec<Sexp> = names.iter().filter(|_| rng.chance(1, 2)).map(|n| atom(n)).collect();
+            some.push(atom(&root));
+            some.push(atom("Nope"));
+            qs.push(Sexp::call("one-of", some));
+            for q in qs {
+                let nontrivial = expected_rows(&q, &doc).is_some_and(|r| !r.is_empty());
+                let qname = match &q {
+                    Sexp::Atom(a) => a.clone(),
+                    other => other.as_call().map(|c| c.0.to_string()).unwrap_or_default(),
+                };
+                let tag = format!("q:{qname}");
+                let mut tags = vec![tag.as_str()];
+                if nontrivial {
+                    tags.push("nt:rows");
+                }
+                out.push(Case::new(Sexp::call("introspect", vec![q, d.clone()]), &tags));
+            }
+            out.push(Case::new(Sexp::call("adapter-invariants", vec![d.clone()]), &["invariants", "nt:invariants"]));
+        }
+        out
+    }
+    fn eval(&self, request: &Sexp) -> Option<String> {
+        let (h, args) = request.as_call()?;
+        match (h, args) {
+            ("introspect", [q, d]) => introspect_answer(q, &sexp_to_doc(d)?),
+            ("adapter-invariants", [d]) => {
+                let doc = sexp_to_doc(d)?;
+                match Schema::parse(render_sdl(&doc)) {
+                    Err(_) => Some("invalid".into()),
+                    Ok(schema) => {
+                        trustfall_core::interpreter::helpers::check_adapter_invariants(meta_schema(), SchemaAdapter::new(&schema));
+                        Some("ok".into())
+                    }
+                }
+            }
+            _ => None,
+        }
+    }
+    fn oracle(&self, evaluated: &[Evaluated]) -> Vec<OracleFailure> {
+        let mut fails = vec![];
+        for e in evaluated {
+            let Some((h, args)) = e.request.as_call() else { continue };
+            if let Some(info) = &e.panic_info {
+                fails.push(OracleFailure { key: panic_key(info), detail: info.chars().take(300).collect(), requests: vec![e.line.clone()] });
+                continue;
+            }
+            if h != "introspect" || args.len() != 2 {
+                continue;
+            }
+            let Some(doc) = sexp_to_doc(&args[1]) else { continue };
+            let Some(expected) = expected_rows(&args[0], &doc) else { continue };
+            let want = render_rows(expected.clone());
+            if e.answer == want {
+                continue;
+            }
+            let qname = match &args[0] {
+                Sexp::Atom(a) => a.clone(),
+                other => other.as_call().map(|c| c.0.to_string()).unwrap_or_default(),
+            };
+            // classify the difference for the `implementer` query: only reflexive extra rows?
+            let mut class = String::new();
+            if qname == "implementer" {
+                let got: BTreeSet<String> = match Sexp::parse(&e.answer).as_ref().and_then(|s| s.as_call().map(|c| c.1.to_vec())) {
+                    Some(rows) => rows.iter().map(|r| r.to_string()).collect(),
+                    None => BTreeSet::new(),
+                };
+                let exp: BTreeSet<String> = expected.iter().cloned().collect();
+                let extra: Vec<&String> = got.difference(&exp).collect();
+                let missing = exp.difference(&got).count();
+                let reflexive = |r: &str| {
+                    let Some(s) = Sexp::parse(r) else { return false };
+                    let Some((_, cells)) = s.as_call() else { return false };
+                    let vals: Vec<String> = cells.iter().filter_map(|c| c.as_list().and_then(|l| l.get(1)).map(|v| v.to_string())).collect();
+                    vals.len() == 2 && vals[0] == vals[1]
+                };
+                class = if missing == 0 && extra.iter().all(|r| reflexive(r)) { ":reflexive-only".into() } else { ":other".into() };
+            }
+            fails.push(OracleFailure {
+                key: format!("introspection-mismatch:{qname}{class}"),
+                detail: format!("engine rows {} ; documented rows {}", e.answer.chars().take(600).collect::<String>(), want.chars().take(600).collect::<String>()),
+                requests: vec![e.line.clone()],
+            });
+        }
+        fails
+    }
+    fn extra_stats(&self, evaluated: &[Evaluated]) -> serde_json::Value {
+        let schemas = evaluated.iter().filter(|e| e.tags.iter().any(|t| t == "invariants")).count();
+        let rows: usize = evaluated.iter().map(|e| e.answer.matches("(row ").count()).sum();
+        serde_json::json!({ "schemas": schemas, "queries_run": evaluated.len() - schemas, "rows_compared": rows })
+    }
+}
+
 fn main() {
     let args: Vec<String> = std::env::args().collect();
     if args.len() >= 2 && args[1] == "probe" {
@@ -1616,6 +2112,16 @@ fn main() {
         }
         return;
     }
+    if args.len() >= 2 && args[1] == "from-sdl" {
+        // debugging aid: SDL text on stdin → the request line `(schema-new <doc>)`
+        let mut text = String::new();
+        std::io::Read::read_to_string(&mut std::io::stdin(), &mut text).unwrap();
+        match doc_of_sdl(&text) {
+            Some(d) => println!("{}", Sexp::call("schema-new", vec![doc_to_sexp(&d)])),
+            None => eprintln!("cannot convert"),
+        }
+        return;
+    }
     if args.len() >= 2 && args[1] == "sdl" {
         // debugging aid: one request line on stdin → SDL text
         let mut text = String::new();
@@ -1625,7 +2131,7 @@ fn main() {
         println!("{}", render_sdl(&sexp_to_doc(a.last().unwrap()).expect("doc")));
         return;
     }
-    main_for(vec![Box::new(C19)]);
+    main_for(vec![Box::new(C19), Box::new(C20)]);
 }
 
 #[allow(dead_code)]
